@@ -267,4 +267,3 @@ func vL2(mon int) {
 }
 
 func VerifH_c06_l2() { vL2(monG2 | monG34 | monG8) }
-func VerifH_c19_l2() { vL2(monG5) }
